@@ -153,7 +153,7 @@ Qed.
 Definition entry_ok (dt : etype) (a b : Z) (e : json) : Prop :=
   exists x y v, e = JArr [JInt x; JInt y; v] /\ 0 <= x < a /\ 0 <= y < b /\ py_isinstance v dt = true.
 Definition row_ok (dt : etype) (b : Z) (r : json) : Prop :=
-  exists items, py_iter r = ROk items /\ Z.of_nat (length items) = b
+  exists items, py_iter r = ROk items /\ items <> [] /\ Z.of_nat (length items) = b
                 /\ Forall (fun v => py_isinstance v dt = true) items.
 
 Lemma unpack3_ints e x y v : unpack3 e = Some (JInt x, y, v) -> e = JArr [JInt x; y; v].
@@ -195,7 +195,7 @@ Qed.
 
 Lemma dense_loop_sound dt nc rows :
   dense_loop dt nc rows = ROk None ->
-  Forall (fun r => exists items, py_iter r = ROk items /\ py_ne_nat (length items) nc = false
+  Forall (fun r => exists items, py_iter r = ROk items /\ items <> [] /\ py_ne_nat (length items) nc = false
                                  /\ Forall (fun v => py_isinstance v dt = true) items) rows.
 Proof.
   induction rows as [|r t IH]; intros H; [constructor|].
@@ -204,7 +204,7 @@ Proof.
   inv_bind H as items Hi. destruct items as [|i0 it]; [discriminate|].
   destruct (forallb (fun v => py_isinstance v dt) (i0 :: it)) eqn:Fa; [|discriminate].
   constructor; [|exact (IH H)].
-  exists (i0 :: it). split; [exact Hi|]. split.
+  exists (i0 :: it). split; [exact Hi|]. split; [discriminate|]. split.
   - apply py_iter_len in Hi. rewrite Hi in Hn. inversion Hn; subst. exact Ne.
   - apply Forall_forall. rewrite forallb_forall in Fa. exact Fa.
 Qed.
@@ -244,7 +244,7 @@ Proof.
     + apply py_ne_nat_false in Ne. cbn [numval] in Ne.
       assert (E1 : SCALE * a = SCALE * Z.of_nat (length l)) by congruence. unfold SCALE in E1. lia.
     + apply dense_loop_sound in Hst. eapply Forall_impl; [|exact Hst].
-      intros r (items & I & N & F). exists items. split; [exact I|]. split; [|exact F].
+      intros r (items & I & Ne0 & N & F). exists items. split; [exact I|]. split; [exact Ne0|]. split; [|exact F].
       apply py_ne_nat_false in N. cbn [numval] in N.
       assert (E1 : SCALE * b = SCALE * Z.of_nat (length items)) by congruence. unfold SCALE in E1. lia.
 Qed.
@@ -328,4 +328,408 @@ Proof.
   - exfalso. revert Lo. vm_compute. discriminate.
   - exfalso. revert Lo. vm_compute. discriminate.
   - right. auto.
+Qed.
+
+(* ------------------------------------------------------------------ the writer's output is accepted *)
+Definition writable (c : jtable) : Prop :=
+  wfj c /\ (jnobs c = 0 <-> jnsamp c = 0)%nat /\ vocabulary (j_type c)
+  /\ Forall (fun s => s <> []) (j_oids c) /\ Forall (fun s => s <> []) (j_sids c)
+  /\ (exists g, j_genby c = JStr g /\ g <> []) /\ (exists d, j_date c = JStr d /\ date_ok d = true).
+
+Lemma existsb_pyeq_strs id prev :
+  ~ In id prev -> existsb (py_eq (JStr id)) (map JStr prev) = false.
+Proof.
+  intros H. induction prev as [|p t IH]; [reflexivity|].
+  cbn [map existsb]. rewrite IH by (intros X; apply H; right; exact X).
+  assert (E : py_eq (JStr id) (JStr p) = false).
+  { unfold py_eq. cbn [numval]. apply str_eqb_neq. intros ->. apply H. left; reflexivity. }
+  rewrite E. reflexivity.
+Qed.
+
+Lemma axis_loop_written ax ids : forall mdl idx prev,
+  length mdl = length ids -> Forall (fun s => s <> []) ids -> NoDup ids ->
+  (forall x, In x ids -> ~ In x prev) ->
+  Forall (fun m => m = JNull \/ is_obj m = true) mdl ->
+  axis_loop ax idx (map (fun p => jrecord (fst p) (snd p)) (combine ids mdl)) (map JStr prev) = ROk None.
+Proof.
+  induction ids as [|id t IH]; intros [|m mdl] idx prev L Ne Nd Dis Fm; simpl in L; try discriminate;
+    [reflexivity|].
+  inversion Ne as [|? ? Hid Ne']; subst. inversion Nd as [|? ? Hni Nd']; subst.
+  inversion Fm as [|? ? Hm Fm']; subst.
+  cbn [combine map fst snd axis_loop].
+  change (py_in (K "id") (jrecord id m)) with (ROk (A := bool) true).
+  change (py_getitem (jrecord id m) (K "id")) with (ROk (A := json) (JStr id)).
+  change (py_in (K "metadata") (jrecord id m)) with (ROk (A := bool) true).
+  change (py_getitem (jrecord id m) (K "metadata")) with (ROk (A := json) m).
+  cbn [bind negb py_hashable].
+  assert (T : py_truthy (JStr id) = true) by (destruct id; [contradiction|reflexivity]).
+  rewrite T. cbn [negb].
+  assert (M : is_null m || is_obj m = true) by (destruct Hm as [->|Hm]; [reflexivity|rewrite Hm; apply orb_true_r]).
+  rewrite M. cbn [negb].
+  rewrite existsb_pyeq_strs by (apply Dis; left; reflexivity).
+  change (JStr id :: map JStr prev) with (map JStr (id :: prev)).
+  apply IH; try assumption; [lia|].
+  intros x Hx [<-|Hp]; [contradiction|]. exact (Dis x (or_intror Hx) Hp).
+Qed.
+
+Lemma md_list_entries n md : md_objs md -> Forall (fun m => m = JNull \/ is_obj m = true) (md_list n md).
+Proof.
+  destruct md as [l|]; simpl; intros H.
+  - eapply Forall_impl; [|exact H]. intros m Hm. right. exact Hm.
+  - apply Forall_forall. intros m Hm. apply repeat_spec in Hm. left. exact Hm.
+Qed.
+
+Lemma valid_axis_written ax key c tid ids md :
+  vocabulary (j_type c) -> jget (to_json_fields c tid) key = Some (JArr (jrecords ids md)) ->
+  md_len md (length ids) -> md_objs md -> Forall (fun s => s <> []) ids -> NoDup ids ->
+  valid_axis ax key (to_json_tree c tid) = ROk None.
+Proof.
+  intros (s & Ty & Sne & _) G L O Ne Nd. unfold valid_axis, to_json_tree.
+  change (py_get (JObj (to_json_fields c tid)) (K "type")) with (ROk (A := json) (j_type c)).
+  rewrite Ty. cbn [bind is_null py_lower py_getitem]. rewrite G. cbn [bind].
+  unfold jrecords.
+  apply (axis_loop_written ax ids (md_list (length ids) md) 0 []); try assumption.
+  - apply md_list_length. exact L.
+  - intros x _ [].
+  - apply md_list_entries. exact O.
+Qed.
+
+Lemma sparse_loop_written dt nr nc ts : forall idx,
+  Forall (in_range nr nc) ts -> dt = TFloat ->
+  sparse_loop dt (SCALE * Z.of_nat nr - SCALE) (SCALE * Z.of_nat nc - SCALE) idx (map jtriple ts) = None.
+Proof.
+  induction ts as [|[[a b] v] t IH]; intros idx F ->; [reflexivity|].
+  inversion F as [|? ? Hab F']; subst. unfold in_range in Hab. destruct Hab as [Ha Hb].
+  cbn [map jtriple sparse_loop unpack3 py_iter py_isinstance negb].
+  assert (X : (Z.of_nat a <? 0) || (SCALE * Z.of_nat nr - SCALE <? SCALE * Z.of_nat a) = false).
+  { apply orb_false_iff. split; [apply Z.ltb_ge; lia|apply Z.ltb_ge; unfold SCALE; lia]. }
+  assert (Y : (Z.of_nat b <? 0) || (SCALE * Z.of_nat nc - SCALE <? SCALE * Z.of_nat b) = false).
+  { apply orb_false_iff. split; [apply Z.ltb_ge; lia|apply Z.ltb_ge; unfold SCALE; lia]. }
+  rewrite X, Y. apply IH; [exact F'|reflexivity].
+Qed.
+
+Lemma triples_empty_dims c : wfj c -> (jnobs c = 0)%nat -> triples (j_mat c) = [].
+Proof.
+  intros (W1 & _) H. rewrite H in W1. destruct (j_mat c); [reflexivity|discriminate].
+Qed.
+
+(* C15: every document the JSON writer produces for a table with a vocabulary type (non-empty
+   IDs and generated_by, a naive creation date) is reported valid *)
+Theorem writer_valid_json c tid : writable c -> validate_json (to_json_tree c tid) = true.
+Proof.
+  intros (W & Bal & Voc & Ne1 & Ne2 & (g & Hg & Gne) & (d & Hd & Dok)).
+  pose proof W as (W1 & W2 & W3 & W4 & W5 & W6 & W7 & W8).
+  assert (Vr : valid_rows (to_json_tree c tid) = ROk None).
+  { apply (valid_axis_written 0 (K "rows") c tid (j_oids c) (j_omd c)); try assumption. reflexivity. }
+  assert (Vc : valid_columns (to_json_tree c tid) = ROk None).
+  { apply (valid_axis_written 1 (K "columns") c tid (j_sids c) (j_smd c)); try assumption.
+    change (jget (to_json_fields c tid) (K "columns")) with (Some (w_columns c)).
+    rewrite (w_columns_balanced c Bal). reflexivity. }
+  assert (Vt : valid_type (to_json_tree c tid) = ROk None).
+  { destruct Voc as (s & Ty & Sne & Mem). unfold valid_type, to_json_tree.
+    change (py_get (JObj (to_json_fields c tid)) (K "type")) with (ROk (A := json) (j_type c)).
+    rewrite Ty. cbn [bind is_null orb py_lower].
+    assert (E : py_eq (JStr s) (JStr []) = false) by (destruct s; [contradiction|reflexivity]).
+    rewrite E, Mem. reflexivity. }
+  assert (Vd : valid_data (to_json_tree c tid) = ROk None).
+  { unfold valid_data, to_json_tree.
+    change (py_getitem (JObj (to_json_fields c tid)) (K "data"))
+      with (ROk (A := json) (JArr (map jtriple (triples (j_mat c))))).
+    cbn [bind negb].
+    change (py_getitem (JObj (to_json_fields c tid)) (K "matrix_type")) with (ROk (A := json) (JStr (K "sparse"))).
+    cbn [bind py_lower].
+    change (str_eqb (map lower_char (K "sparse")) (K "sparse")) with true. cbn iota.
+    unfold valid_sparse_data.
+    change (py_getitem (JObj (to_json_fields c tid)) (K "shape"))
+      with (ROk (A := json) (JArr [JInt (Z.of_nat (jnobs c)); JInt (Z.of_nat (jnsamp c))])).
+    change (py_getitem (JObj (to_json_fields c tid)) (K "data"))
+      with (ROk (A := json) (JArr (map jtriple (triples (j_mat c))))).
+    unfold element_dtype.
+    change (py_getitem (JObj (to_json_fields c tid)) (K "matrix_element_type"))
+      with (ROk (A := json) (JStr (element_type c))).
+    cbn [bind py_hashable negb].
+    unfold element_type.
+    destruct ((0 <? jnobs c)%nat && (0 <? jnsamp c)%nat) eqn:Dim.
+    - change (find (fun p => py_eq (JStr (K "float")) (JStr (fst p))) ELEMENT_TYPES) with (Some (K "float", TFloat)).
+      cbn [bind snd py_unpack2 py_iter fst py_sub1 numval]. f_equal.
+      apply sparse_loop_written; [|reflexivity]. rewrite <- W1. apply triples_range. exact W2.
+    - change (find (fun p => py_eq (JStr (K "int")) (JStr (fst p))) ELEMENT_TYPES) with (Some (K "int", TInt)).
+      cbn [bind snd py_unpack2 py_iter fst py_sub1 numval].
+      assert (Z0 : (jnobs c = 0)%nat).
+      { apply andb_false_iff in Dim. destruct Dim as [D|D]; apply Nat.ltb_ge in D; [lia|].
+        apply Bal. lia. }
+      rewrite (triples_empty_dims c W Z0). reflexivity. }
+  assert (Vg : valid_generated_by (to_json_tree c tid) = ROk None).
+  { unfold valid_generated_by, to_json_tree.
+    change (py_get (JObj (to_json_fields c tid)) (K "generated_by")) with (ROk (A := json) (j_genby c)).
+    rewrite Hg. cbn [bind]. destruct g; [contradiction|reflexivity]. }
+  assert (Vdt : valid_datetime (to_json_tree c tid) = ROk None).
+  { unfold valid_datetime, to_json_tree.
+    change (py_getitem (JObj (to_json_fields c tid)) (K "date")) with (ROk (A := json) (j_date c)).
+    rewrite Hd. cbn [bind]. rewrite Dok. reflexivity. }
+  assert (Vme : valid_matrix_element_type (to_json_tree c tid) = ROk None).
+  { unfold valid_matrix_element_type, to_json_tree.
+    change (py_getitem (JObj (to_json_fields c tid)) (K "matrix_element_type"))
+      with (ROk (A := json) (JStr (element_type c))).
+    unfold element_type. destruct ((0 <? jnobs c)%nat && (0 <? jnsamp c)%nat); reflexivity. }
+  assert (Rq : run_required (to_json_tree c tid) REQUIRED 0 = ROk []).
+  { unfold REQUIRED. cbn [run_required].
+    change (py_in (K "format") (to_json_tree c tid)) with (ROk (A := bool) true).
+    change (py_in (K "format_url") (to_json_tree c tid)) with (ROk (A := bool) true).
+    change (py_in (K "type") (to_json_tree c tid)) with (ROk (A := bool) true).
+    change (py_in (K "rows") (to_json_tree c tid)) with (ROk (A := bool) true).
+    change (py_in (K "columns") (to_json_tree c tid)) with (ROk (A := bool) true).
+    change (py_in (K "shape") (to_json_tree c tid)) with (ROk (A := bool) true).
+    change (py_in (K "data") (to_json_tree c tid)) with (ROk (A := bool) true).
+    change (py_in (K "matrix_type") (to_json_tree c tid)) with (ROk (A := bool) true).
+    change (py_in (K "matrix_element_type") (to_json_tree c tid)) with (ROk (A := bool) true).
+    change (py_in (K "generated_by") (to_json_tree c tid)) with (ROk (A := bool) true).
+    change (py_in (K "id") (to_json_tree c tid)) with (ROk (A := bool) true).
+    change (py_in (K "date") (to_json_tree c tid)) with (ROk (A := bool) true).
+    cbn [bind negb].
+    change (valid_format (to_json_tree c tid)) with (ROk (A := status) None).
+    change (valid_format_url (to_json_tree c tid)) with (ROk (A := status) None).
+    change (valid_shape (to_json_tree c tid)) with (ROk (A := status) None).
+    change (valid_matrix_type (to_json_tree c tid)) with (ROk (A := status) None).
+    rewrite Vt, Vr, Vc, Vd, Vme, Vg, Vdt. reflexivity. }
+  unfold validate_json, validate_json_report. rewrite Rq. cbn [bind].
+  unfold shape_checks, count_check.
+  change (py_in (K "shape") (to_json_tree c tid)) with (ROk (A := bool) true).
+  change (py_in (K "rows") (to_json_tree c tid)) with (ROk (A := bool) true).
+  change (py_in (K "columns") (to_json_tree c tid)) with (ROk (A := bool) true).
+  change (py_getitem (to_json_tree c tid) (K "rows")) with (ROk (A := json) (w_rows c)).
+  change (py_getitem (to_json_tree c tid) (K "columns")) with (ROk (A := json) (w_columns c)).
+  change (py_getitem (to_json_tree c tid) (K "shape"))
+    with (ROk (A := json) (JArr [JInt (Z.of_nat (jnobs c)); JInt (Z.of_nat (jnsamp c))])).
+  rewrite (w_columns_balanced c Bal). unfold w_rows, jrecords.
+  cbn [bind py_len py_index nth_error].
+  rewrite !map_length, !combine_length, !md_list_length by assumption. rewrite !Nat.min_id.
+  unfold py_ne_nat. cbn [numval]. fold (jnobs c). fold (jnsamp c). rewrite !Z.eqb_refl. reflexivity.
+Qed.
+
+(* ------------------------------------------------------------------ an accepted numeric document loads *)
+Definition rec_md (r : json) : json :=
+  match r with JObj kv => match jget kv (K "metadata") with Some v => v | None => JNull end | _ => JNull end.
+Definition str_of (j : json) : str := match j with JStr s => s | _ => [] end.
+Definition ids_text (recs : list json) : Prop := Forall (fun r => is_str (rec_id r) = true) recs.
+Definition id_strs (recs : list json) : list str := map (fun r => str_of (rec_id r)) recs.
+Definition numeric (dt : etype) : Prop := dt = TInt \/ dt = TFloat.
+Definition val_of (v : json) : Z := match numval v with Some k => k | None => 0 end.
+(* the (row, column, value) triples a sparse "data" list declares *)
+Definition declared_entry (e : json) : nat * nat * Z :=
+  match e with
+  | JArr [JInt x; JInt y; v] => (Z.to_nat x, Z.to_nat y, val_of v)
+  | _ => (0%nat, 0%nat, 0)
+  end.
+Definition declared_row (r : json) : list Z := match r with JArr l => map val_of l | _ => [] end.
+
+Lemma ids_of_good recs :
+  Forall good_rec recs -> mapM (fun r => py_getitem r (K "id")) recs = ROk (map rec_id recs).
+Proof.
+  intros F. apply mapM_ok. intros r Hr. rewrite Forall_forall in F.
+  destruct (F r Hr) as (kv & idv & md & -> & Gi & _). unfold rec_id. cbn [py_getitem]. rewrite Gi. reflexivity.
+Qed.
+Lemma mds_of_good recs :
+  Forall good_rec recs -> mapM (fun r => py_getitem r (K "metadata")) recs = ROk (map rec_md recs).
+Proof.
+  intros F. apply mapM_ok. intros r Hr. rewrite Forall_forall in F.
+  destruct (F r Hr) as (kv & idv & md & -> & _ & _ & _ & Gm & _). unfold rec_md. cbn [py_getitem]. rewrite Gm. reflexivity.
+Qed.
+Lemma as_str_text recs : ids_text recs -> mapM as_str (map rec_id recs) = ROk (id_strs recs).
+Proof.
+  intros F. unfold id_strs. rewrite <- (map_map rec_id str_of). apply mapM_ok.
+  intros x Hx. apply in_map_iff in Hx. destruct Hx as [r [<- Hr]].
+  unfold ids_text in F. rewrite Forall_forall in F. specialize (F r Hr).
+  destruct (rec_id r); try discriminate. reflexivity.
+Qed.
+Lemma distinct_text_nodup recs :
+  ids_text recs -> py_distinct (map rec_id recs) -> NoDup (id_strs recs).
+Proof.
+  induction recs as [|r t IH]; intros T D; [constructor|].
+  inversion T as [|? ? Tr Tt]; subst. cbn [map] in D. inversion D as [|? ? Fx Dt]; subst.
+  unfold id_strs. cbn [map]. constructor; [|apply IH; assumption].
+  intros Hin. apply in_map_iff in Hin. destruct Hin as [r' [E Hr']].
+  rewrite Forall_forall in Fx. specialize (Fx (rec_id r') (in_map rec_id _ _ Hr')).
+  unfold ids_text in Tt. rewrite Forall_forall in Tt. specialize (Tt r' Hr').
+  destruct (rec_id r); try discriminate. destruct (rec_id r'); try discriminate.
+  cbn [str_of] in E. subst. unfold py_eq in Fx. cbn [numval] in Fx. rewrite str_eqb_refl in Fx. discriminate.
+Qed.
+Lemma cast_md_good recs : Forall good_rec recs -> exists m, cast_md (map rec_md recs) = ROk m.
+Proof.
+  intros F. unfold cast_md. destruct (negb (existsb py_truthy (map rec_md recs))); [eexists; reflexivity|].
+  assert (E : exists l, mapM (fun x => match x with JObj _ => ROk x | JNull => ROk (JObj []) | _ => RErr E_TABLE end)
+                          (map rec_md recs) = ROk l).
+  { induction recs as [|r t IH]; [eexists; reflexivity|].
+    inversion F as [|? ? Gr Ft]; subst. destruct (IH Ft) as [l Hl].
+    destruct Gr as (kv & idv & md & -> & _ & _ & _ & Gm & Hm).
+    cbn [map mapM]. unfold rec_md at 1. rewrite Gm.
+    destruct Hm as [->|Hm]; [|destruct md; try discriminate]; cbn [bind]; rewrite Hl; eexists; reflexivity. }
+  destruct E as [l ->]. eexists; reflexivity.
+Qed.
+
+Lemma numeric_val v dt : numeric dt -> py_isinstance v dt = true -> val_code v = ROk (val_of v).
+Proof.
+  intros [-> | ->] H; destruct v; try discriminate; reflexivity.
+Qed.
+
+Lemma sparse_entries_declared dt a b entries :
+  numeric dt -> entries <> [] -> Forall (entry_ok dt (Z.of_nat a) (Z.of_nat b)) entries ->
+  sparse_entries a b entries = ROk (map declared_entry entries).
+Proof.
+  intros Nu Ne F. unfold sparse_entries.
+  rewrite (mapM_ok py_iter (fun j => match j with JArr l => l | _ => [] end)).
+  2:{ intros e He. rewrite Forall_forall in F. destruct (F e He) as (x & y & v & -> & _). reflexivity. }
+  cbn [bind].
+  assert (A : forallb (fun l => (3 <=? length l)%nat)
+                (map (fun j => match j with JArr l => l | _ => [] end) entries) = true).
+  { apply forallb_forall. intros l Hl. apply in_map_iff in Hl. destruct Hl as [e [<- He]].
+    rewrite Forall_forall in F. destruct (F e He) as (x & y & v & -> & _). reflexivity. }
+  assert (B : existsb (fun l => (length l =? 3)%nat)
+                (map (fun j => match j with JArr l => l | _ => [] end) entries) = true).
+  { destruct entries as [|e t]; [contradiction|]. inversion F as [|? ? (x & y & v & -> & _) _]; subst. reflexivity. }
+  rewrite A, B. cbn [andb].
+  rewrite map_map. apply mapM_ok. intros e He. rewrite Forall_forall in F.
+  destruct (F e He) as (x & y & v & -> & Hx & Hy & Iv). cbn [nth declared_entry]. unfold coord.
+  assert (C1 : (x <? 0) = false) by (apply Z.ltb_ge; lia).
+  assert (C2 : (Z.of_nat a <=? x) = false) by (apply Z.leb_gt; lia).
+  assert (C3 : (y <? 0) = false) by (apply Z.ltb_ge; lia).
+  assert (C4 : (Z.of_nat b <=? y) = false) by (apply Z.leb_gt; lia).
+  rewrite C1, C2, C3, C4. cbn [orb]. rewrite (numeric_val v dt Nu Iv). reflexivity.
+Qed.
+
+Lemma py_iter_numeric j x rest dt :
+  numeric dt -> py_isinstance x dt = true -> py_iter j = ROk (x :: rest) -> j = JArr (x :: rest).
+Proof.
+  intros Nu I H. destruct j; simpl in H; try discriminate.
+  - destruct s; simpl in H; [discriminate|]. inversion H; subst. destruct Nu as [-> | ->]; discriminate.
+  - inversion H; reflexivity.
+  - destruct kv; simpl in H; [discriminate|]. inversion H; subst. destruct Nu as [-> | ->]; discriminate.
+Qed.
+
+Lemma dense_entries_declared dt a b entries :
+  numeric dt -> entries <> [] -> length entries = a -> Forall (row_ok dt (Z.of_nat b)) entries ->
+  dense_entries a b entries = ROk (triples (map declared_row entries))
+  /\ rect b (map declared_row entries).
+Proof.
+  intros Nu Ne La F.
+  assert (Rows : forall r, In r entries -> exists l, r = JArr l /\ length l = b /\ l <> []
+                                         /\ mapM val_code l = ROk (map val_of l)).
+  { intros r Hr. rewrite Forall_forall in F. destruct (F r Hr) as (items & I & Ni & L & Fi).
+    destruct items as [|i0 it]; [contradiction|].
+    inversion Fi as [|? ? I0 _]; subst.
+    pose proof (py_iter_numeric _ _ _ _ Nu I0 I) as ->.
+    exists (i0 :: it). split; [reflexivity|]. split; [lia|]. split; [discriminate|].
+    apply mapM_ok. intros v Hv. rewrite Forall_forall in Fi. apply (numeric_val v dt Nu). apply Fi. exact Hv. }
+  assert (Rect : rect b (map declared_row entries)).
+  { apply Forall_forall. intros r Hr. apply in_map_iff in Hr. destruct Hr as [e [<- He]].
+    destruct (Rows e He) as (l & -> & L & _). cbn [declared_row]. rewrite map_length. exact L. }
+  split; [|exact Rect].
+  unfold dense_entries.
+  rewrite (mapM_ok _ declared_row).
+  2:{ intros r Hr. destruct (Rows r Hr) as (l & -> & _ & _ & M). exact M. }
+  cbn [bind].
+  destruct entries as [|e0 et]; [contradiction|]. cbn [map].
+  assert (Fa : forallb (fun r => (length r =? length (declared_row e0))%nat)
+                 (declared_row e0 :: map declared_row et) = true).
+  { apply forallb_forall. intros r Hr.
+    change (declared_row e0 :: map declared_row et) with (map declared_row (e0 :: et)) in Hr.
+    unfold rect in Rect. rewrite Forall_forall in Rect. rewrite (Rect r Hr).
+    rewrite (Rect (declared_row e0) (or_introl eq_refl)). apply Nat.eqb_refl. }
+  rewrite Fa.
+  change (declared_row e0 :: map declared_row et) with (map declared_row (e0 :: et)).
+  assert (Rg : forallb (fun t => let '(i, j, _) := t in (i <? a)%nat && (j <? b)%nat)
+                 (triples (map declared_row (e0 :: et))) = true).
+  { apply forallb_forall. intros [[i j] v] Ht.
+    pose proof (triples_range b _ Rect) as TR. rewrite Forall_forall in TR. specialize (TR _ Ht).
+    unfold in_range in TR. rewrite map_length, La in TR. destruct TR as [T1 T2].
+    apply andb_true_iff. split; apply Nat.ltb_lt; assumption. }
+  rewrite Rg. reflexivity.
+Qed.
+
+(* C15: a document the validator accepts, whose element type is numeric and whose IDs are
+   text, loads, with the declared shape, the declared IDs in order and the declared values *)
+Theorem valid_loads j kv rrecs crecs entries mt met dt :
+  validate_json j = true -> j = JObj kv ->
+  jget kv (K "rows") = Some (JArr rrecs) -> jget kv (K "columns") = Some (JArr crecs) ->
+  jget kv (K "data") = Some (JArr entries) -> jget kv (K "matrix_type") = Some (JStr mt) ->
+  jget kv (K "matrix_element_type") = Some (JStr met) -> In (met, dt) ELEMENT_TYPES -> numeric dt ->
+  ids_text rrecs -> ids_text crecs ->
+  exists c, from_json j = ROk c
+    /\ j_oids c = id_strs rrecs /\ j_sids c = id_strs crecs
+    /\ jget kv (K "shape") = Some (JArr [JInt (Z.of_nat (length (j_oids c))); JInt (Z.of_nat (length (j_sids c)))])
+    /\ (mt = K "sparse" -> j_mat c = dense_of_triples (length rrecs) (length crecs) (map declared_entry entries))
+    /\ (mt = K "dense" -> j_mat c = map declared_row entries).
+Proof.
+  intros V -> Gr Gc Gd Gmt Gme Hin Nu Tr Tc.
+  destruct (valid_sound_json _ V) as (kv' & a & b & rrecs' & crecs' & entries' & mt' & met' & dt' & E & Keys & Hs
+    & Gr' & La & Gc' & Lb & Fr & Fc & Dr & Dc & Gd' & Gmt' & Gme' & Hin' & Hdata).
+  inversion E; subst kv'. clear E.
+  rewrite Gr in Gr'. inversion Gr'; subst rrecs'. rewrite Gc in Gc'. inversion Gc'; subst crecs'.
+  rewrite Gd in Gd'. inversion Gd'; subst entries'. rewrite Gmt in Gmt'. inversion Gmt'; subst mt'.
+  rewrite Gme in Gme'. inversion Gme'; subst met'.
+  assert (dt' = dt).
+  { clear - Hin Hin'. unfold ELEMENT_TYPES in *. cbn [In] in *.
+    repeat match goal with H : _ \/ _ |- _ => destruct H as [H|H] end; try contradiction;
+      inversion Hin; inversion Hin'; subst; try reflexivity;
+      match goal with H : K _ = K _ |- _ => try (vm_compute in H; discriminate H) end. }
+  subst dt'.
+  assert (Kd : forall k, In k (map fst REQUIRED) -> exists v, jget kv k = Some v).
+  { intros k Hk. rewrite Forall_forall in Keys. specialize (Keys k Hk). destruct (jget kv k); [eauto|contradiction]. }
+  destruct (Kd (K "type")) as [ty Gty]; [cbn; tauto|].
+  destruct (Kd (K "date")) as [dte Gdate]; [cbn; tauto|].
+  destruct (Kd (K "generated_by")) as [gb Ggb]; [cbn; tauto|].
+  destruct (cast_md_good _ Fc) as [smd' Hsmd]. destruct (cast_md_good _ Fr) as [omd' Homd].
+  assert (Met : existsb (fun t => py_eq (JStr met) (JStr t)) ELEMENT_TYPES_TABLE = true).
+  { destruct Nu as [-> | ->]; unfold ELEMENT_TYPES in Hin; cbn [In] in Hin;
+      repeat match goal with H : _ \/ _ |- _ => destruct H as [H|H] end; try contradiction;
+      inversion Hin; subst; reflexivity. }
+  assert (MS : exists m, to_sparse (JArr entries) (py_eq (JStr mt) (JStr (K "dense"))) (length rrecs) (length crecs) = ROk m
+                         /\ (mt = K "sparse" -> m = dense_of_triples (length rrecs) (length crecs) (map declared_entry entries))
+                         /\ (mt = K "dense" -> m = map declared_row entries)).
+  { destruct Hdata as [[-> Fa]|[-> [Le Fa]]].
+    - change (py_eq (JStr (K "sparse")) (JStr (K "dense"))) with false.
+      destruct entries as [|e0 et].
+      + eexists. split; [reflexivity|]. split; [intros _; reflexivity|intros X; vm_compute in X; discriminate X].
+      + rewrite <- La, <- Lb in Fa.
+        pose proof (sparse_entries_declared dt _ _ (e0 :: et) Nu ltac:(discriminate) Fa) as SE.
+        inversion Fa as [|? ? (x & y & v & -> & _) _]; subst.
+        eexists. split.
+        * change (to_sparse (JArr (JArr [JInt x; JInt y; v] :: et)) false (length rrecs) (length crecs))
+            with (bind (sparse_entries (length rrecs) (length crecs) (JArr [JInt x; JInt y; v] :: et))
+                       (fun ts => ROk (dense_of_triples (length rrecs) (length crecs) ts))).
+          rewrite SE. reflexivity.
+        * split; [intros _; reflexivity|intros X; vm_compute in X; discriminate X].
+    - change (py_eq (JStr (K "dense")) (JStr (K "dense"))) with true.
+      destruct entries as [|e0 et].
+      + eexists. split; [reflexivity|]. split; [intros X; vm_compute in X; discriminate X|].
+        intros _. cbn [length] in Le. assert (length rrecs = 0%nat) by lia.
+        destruct rrecs; [reflexivity|discriminate].
+      + rewrite <- Lb in Fa. assert (Le' : length (e0 :: et) = length rrecs) by lia.
+        destruct (dense_entries_declared dt _ _ (e0 :: et) Nu ltac:(discriminate) Le' Fa) as [DE Rect].
+        inversion Fa as [|? ? (items & I & Ni & L & Fi) _]; subst.
+        destruct items as [|i0 it]; [contradiction|]. inversion Fi as [|? ? I0 _]; subst.
+        pose proof (py_iter_numeric _ _ _ _ Nu I0 I) as ->.
+        eexists. split.
+        * change (to_sparse (JArr (JArr (i0 :: it) :: et)) true (length rrecs) (length crecs))
+            with (bind (dense_entries (length rrecs) (length crecs) (JArr (i0 :: it) :: et))
+                       (fun ts => ROk (dense_of_triples (length rrecs) (length crecs) ts))).
+          rewrite DE. reflexivity.
+        * split; [intros X; vm_compute in X; discriminate X|]. intros _.
+          rewrite <- Le'. rewrite <- (map_length declared_row (JArr (i0 :: it) :: et)).
+          apply triples_roundtrip. exact Rect. }
+  destruct MS as (m & TS & Msp & Mde).
+  exists (mkJT (id_strs rrecs) (id_strs crecs) m omd' smd' ty gb dte).
+  split; [|cbn [j_oids j_sids j_mat]; unfold id_strs; rewrite !map_length; rewrite La, Lb; auto].
+  unfold from_json. cbn [py_getitem py_in]. rewrite Gc. cbn [bind py_iter].
+  rewrite (ids_of_good _ Fc). cbn [bind]. rewrite (mds_of_good _ Fc). cbn [bind].
+  rewrite Gr. cbn [bind py_iter].
+  rewrite (ids_of_good _ Fr). cbn [bind]. rewrite (mds_of_good _ Fr). cbn [bind].
+  rewrite Gme. cbn [bind py_hashable]. rewrite Met. cbn [bind].
+  rewrite Gmt. cbn [bind]. rewrite Gty. cbn [bind]. rewrite Gd. cbn [bind]. rewrite Gdate. cbn [bind].
+  rewrite Hs. cbn [bind]. rewrite Ggb. cbn [bind].
+  rewrite !map_length. rewrite TS. cbn [bind].
+  rewrite (as_str_text _ Tr). cbn [bind]. rewrite (as_str_text _ Tc). cbn [bind].
+  assert (D1 : str_dup (id_strs rrecs) = false) by (apply str_dup_false_NoDup; apply distinct_text_nodup; assumption).
+  assert (D2 : str_dup (id_strs crecs) = false) by (apply str_dup_false_NoDup; apply distinct_text_nodup; assumption).
+  rewrite D1, D2. cbn [orb bind]. rewrite Hsmd. cbn [bind]. rewrite Homd. reflexivity.
 Qed.
